@@ -185,16 +185,14 @@ func (r *histRun) genStep(maxIntents int) []stepIntent {
 		case cur != nil && act < 11:
 			// shrink: drop some paths
 			si.Prio, si.Kind, si.Vals = cur.Prio, "shrink", map[string]string{}
-			for k, v := range cur.Vals {
+			ks := sortedKeys(cur.Vals)
+			for _, k := range ks {
 				if rng.Bool() {
-					si.Vals[k] = v
+					si.Vals[k] = cur.Vals[k]
 				}
 			}
 			if len(si.Vals) == 0 {
-				for k, v := range cur.Vals {
-					si.Vals[k] = v
-					break
-				}
+				si.Vals[ks[0]] = cur.Vals[ks[0]]
 			}
 		case cur != nil && act < 15:
 			// change values / add paths, keep the rest
@@ -238,6 +236,15 @@ func (r *histRun) freshPrio(owner string, taken map[int32]bool) int32 {
 	}
 }
 
+func sortedKeys(m map[string]string) []string {
+	ks := make([]string, 0, len(m))
+	for k := range m {
+		ks = append(ks, k)
+	}
+	sort.Strings(ks)
+	return ks
+}
+
 func copyMap(m map[string]string) map[string]string {
 	c := make(map[string]string, len(m))
 	for k, v := range m {
@@ -257,15 +264,18 @@ func stepString(step []stepIntent) string {
 // applyToModel returns the model after the step.
 func applyToModel(m *model.Intents, step []stepIntent) *model.Intents {
 	n := m.Clone()
-	// deletes first so that orphan bookkeeping sees the final owners
 	for _, si := range step {
 		if !si.Delete {
 			n.Set(si.Owner, &model.Intent{Prio: si.Prio, Vals: copyMap(si.Vals)})
+		} else if !si.Orphan {
+			n.Delete(si.Owner, false)
 		}
 	}
+	// orphan deletes last: a leaf the orphaned intent defined and that no intent defines after the
+	// whole transaction stays on the device by design
 	for _, si := range step {
-		if si.Delete {
-			n.Delete(si.Owner, si.Orphan)
+		if si.Delete && si.Orphan {
+			n.Delete(si.Owner, true)
 		}
 	}
 	return n
@@ -376,13 +386,13 @@ func (r *histRun) commit(step []stepIntent) (setOutcome, bool) {
 // oracles
 
 // checkDevice is the C01 oracle.
-func (r *histRun) checkDevice(tag string) {
+func (r *histRun) checkDevice(tag string, rsp *sdcpb.TransactionSetResponse) {
 	D := r.ds.Dev.Snapshot()
 	W := r.m.Winners()
 	for k, w := range W {
 		dv, ok := D[k]
 		if !ok {
-			r.res.Violate("C01/missing"+featureOf(k), "%s: device lacks %s (ruling: %s p%d = %s)\n  model: %s", tag, k, w.Owner, w.Prio, w.Value, r.m)
+			r.res.Violate("C01/missing"+missingFeature(k, rsp), "%s: device lacks %s (ruling: %s p%d = %s)\n  model: %s", tag, k, w.Owner, w.Prio, w.Value, r.m)
 		} else if dv != w.Value {
 			r.res.Violate("C01/wrong-value"+featureOf(k), "%s: device has %s=%s, ruling intent %s p%d says %s\n  model: %s", tag, k, dv, w.Owner, w.Prio, w.Value, r.m)
 		}
@@ -390,6 +400,16 @@ func (r *histRun) checkDevice(tag string) {
 	inEverEntry := func(k string) bool {
 		for _, e := range model.Parse(k).ListEntryPrefixes() {
 			if r.m.EverEntries[e] {
+				return true
+			}
+		}
+		return false
+	}
+	// an intent that defines a presence container itself manages the container: removing it removes what is below
+	underEverContainer := func(k string) bool {
+		p := model.Parse(k)
+		for i := 1; i < len(p); i++ {
+			if r.m.Ever[p[:i].String()] {
 				return true
 			}
 		}
@@ -405,7 +425,7 @@ func (r *histRun) checkDevice(tag string) {
 			}
 			continue
 		}
-		if inEverEntry(k) {
+		if inEverEntry(k) || underEverContainer(k) {
 			continue // unconstrained by the statement
 		}
 		if iv, ok := r.initRun[k]; !ok || iv != dv {
@@ -413,7 +433,7 @@ func (r *histRun) checkDevice(tag string) {
 		}
 	}
 	for k, iv := range r.initRun {
-		if r.m.Ever[k] || inEverEntry(k) {
+		if r.m.Ever[k] || inEverEntry(k) || underEverContainer(k) {
 			continue
 		}
 		if dv, ok := D[k]; !ok {
@@ -424,6 +444,20 @@ func (r *histRun) checkDevice(tag string) {
 		}
 	}
 }
+
+// missingFeature classifies a missing leaf: was it removed by a delete of a presence container sent in this very transaction?
+func missingFeature(k string, rsp *sdcpb.TransactionSetResponse) string {
+	kp := model.Parse(k)
+	for _, d := range rsp.GetDelete() {
+		dp := model.FromPb(d)
+		if dp.Covers(kp) && len(dp) < len(kp) && presenceContainers[dp.String()] {
+			return "/owned-child-removed-by-presence-container-delete"
+		}
+	}
+	return featureOf(k)
+}
+
+var presenceContainers = map[string]bool{"/pres": true, "/pres2": true, "/ch/gamma": true, "/ch/delta": true, "/cons/mand": true}
 
 // featureOf refines a violation key by the kind of node, so that known findings stay specific.
 func featureOf(k string) string {
